@@ -32,6 +32,7 @@ type Engine struct {
 
 	fa     map[*ssa.Function]*FuncAnalysis
 	acc    map[*ssa.Function]*Node
+	pure   map[*ssa.Function][]*Node
 	sums   map[string]FactSet
 	inprog map[string]bool
 	// statistics
@@ -343,6 +344,7 @@ func (a *FuncAnalysis) fixpoint() {
 		for _, b := range fn.Blocks { // block order is roughly RPO already
 			if b.Index != 0 {
 				var in FactSet
+				var predSets []FactSet
 				reached := false
 				for _, p := range b.Preds {
 					k := [2]int{p.Index, b.Index}
@@ -355,8 +357,10 @@ func (a *FuncAnalysis) fixpoint() {
 						for _, f := range g {
 							s.Add(f)
 						}
+						activateGuarded(s)
 						a.derive(s)
 					}
+					predSets = append(predSets, s)
 					if !reached {
 						in = s.Clone()
 						reached = true
@@ -367,6 +371,9 @@ func (a *FuncAnalysis) fixpoint() {
 				if !reached {
 					continue
 				}
+				if len(predSets) > 1 {
+					addGuarded(in, predSets)
+				}
 				if !equalSets(in, a.In[b.Index]) {
 					a.In[b.Index] = in
 					dirty = true
@@ -376,6 +383,90 @@ func (a *FuncAnalysis) fixpoint() {
 			if !equalSets(o, outs[b.Index]) {
 				outs[b.Index] = o
 				dirty = true
+			}
+		}
+	}
+}
+
+// addGuarded: at a merge the plain intersection forgets what only SOME
+// predecessors know. When the predecessors split on an atom c (some carry c,
+// all others its complement), what all c-predecessors agree on is kept as the
+// guarded fact when(c ⇒ f). A later edge that establishes c again (the same
+// field re-tested by the next case of a switch, a flag checked after an early
+// return was merged back) re-activates f. This makes an if-chain and its
+// switch / early-return rewrites yield the same facts.
+func addGuarded(in FactSet, preds []FactSet) {
+	// candidate discriminators: atoms of the first predecessor not in the intersection
+	const maxPerMerge = 48
+	added := 0
+	tried := map[string]bool{}
+	for _, ps := range preds {
+		for _, k := range ps.Keys() { // sorted: the cap must cut deterministically
+			c := ps[k]
+			if tried[k] || added >= maxPerMerge {
+				continue
+			}
+			if _, common := in[k]; common {
+				continue
+			}
+			comp := c.Complement()
+			if comp == "" || c.Kind == "when" {
+				continue
+			}
+			tried[k] = true
+			// every predecessor must carry c or its complement
+			var with []FactSet
+			split, nComp := true, 0
+			for _, q := range preds {
+				if _, ok := q[k]; ok {
+					with = append(with, q)
+				} else if _, ok := q[comp]; ok {
+					nComp++
+				} else {
+					split = false
+					break
+				}
+			}
+			if !split || nComp == 0 || len(with) == 0 {
+				continue
+			}
+			agree := with[0]
+			for _, q := range with[1:] {
+				agree = Intersect(agree, q)
+			}
+			for _, fk := range agree.Keys() {
+				f := agree[fk]
+				if fk == k || f.Kind == "when" || f.Kind == "called" || f.Kind == "joint" {
+					continue
+				}
+				if _, common := in[fk]; common {
+					continue
+				}
+				in.Add(&Fact{Kind: "when", If: c, Sub: f})
+				added++
+				if added >= maxPerMerge {
+					break
+				}
+			}
+		}
+	}
+}
+
+// activateGuarded adds the consequents of the guarded facts whose antecedent
+// holds in s.
+func activateGuarded(s FactSet) {
+	for changed := true; changed; {
+		changed = false
+		for _, f := range s {
+			if f.Kind != "when" {
+				continue
+			}
+			if _, ok := s[f.If.Key()]; !ok {
+				continue
+			}
+			if _, ok := s[f.Sub.Key()]; !ok {
+				s[f.Sub.Key()] = f.Sub
+				changed = true
 			}
 		}
 	}
@@ -649,6 +740,40 @@ func (a *FuncAnalysis) condFacts(c ssa.Value, pol bool) []*Fact {
 			}
 			a.phiDepth--
 		}
+		// the other polarity of a short-circuit value: x := a && b known FALSE (x := a || b known
+		// TRUE) is a disjunction; it becomes definite as soon as the other operand is known:
+		// when(a ⇒ ¬b) and when(b ⇒ ¬a) (dually for ||). A later re-test of a — the next case of
+		// a switch over the same flags — then yields ¬b.
+		if cand == -2 && len(phi.Edges) == 2 && a.phiDepth < 4 {
+			ci := -1
+			for i, e := range phi.Edges {
+				if cst, isC := e.(*ssa.Const); isC && cst.Value != nil && cst.Value.Kind() == constant.Bool && constant.BoolVal(cst.Value) == pol {
+					ci = i
+				}
+			}
+			if ci >= 0 {
+				if _, otherConst := phi.Edges[1-ci].(*ssa.Const); !otherConst && ci < len(phi.Block().Preds) {
+					pc := phi.Block().Preds[ci]
+					if iff, ok := pc.Instrs[len(pc.Instrs)-1].(*ssa.If); ok && len(pc.Succs) == 2 && pc.Succs[0] != pc.Succs[1] {
+						toRHS := pc.Succs[0] != phi.Block() // polarity of a that evaluates the right operand
+						a.phiDepth++
+						aRHS := a.condFacts(iff.Cond, toRHS)
+						aConst := a.condFacts(iff.Cond, !toRHS)
+						bPol := a.condFacts(phi.Edges[1-ci], pol)
+						bNot := a.condFacts(phi.Edges[1-ci], !pol)
+						a.phiDepth--
+						if len(aRHS) > 0 && len(bNot) > 0 {
+							for _, f := range bPol {
+								out = append(out, &Fact{Kind: "when", If: aRHS[0], Sub: f})
+							}
+							for _, f := range aConst {
+								out = append(out, &Fact{Kind: "when", If: bNot[0], Sub: f})
+							}
+						}
+					}
+				}
+			}
+		}
 	}
 	return out
 }
@@ -875,6 +1000,7 @@ func (a *FuncAnalysis) Exits(spec string) ([]*Exit, error) {
 			for _, x := range b.Instrs {
 				a.events(x, facts)
 			}
+			activateGuarded(facts)
 			a.derive(facts)
 			if ex := a.classifyExit(ret, p, facts, cls); ex != nil {
 				exits = append(exits, ex)
